@@ -30,7 +30,7 @@ class PropCheck:
     model_targets = []        # .vo files the correspondence needs
     prop_targets = []         # .vo files holding the property theorems
     harness_mode = "run"
-    budget = 20000
+    budget = 4000
     depth = 120
     trusted_base = []
     rule = ""
@@ -103,9 +103,17 @@ def evaluate(prop, cases):
     for i, (c, r) in enumerate(zip(cases, impl)):
         why = prop.oracle(c, r)
         exp = prop.expected(c, r) if prop.model_available else None
+        expr = None
+        if isinstance(r, str) and r.startswith("ABORT") and "STACKOVERFLOW" in r and prop.harness_mode == "run":
+            # a native stack overflow is accepted only in the classes the properties exclude (a list / map that contains
+            # itself, recursion beyond a fixed depth); whether the program is in one of them is decided by the model
+            files = "; ".join("(%s, %s)" % (C.coq_text(k), C.coq_text(v)) for k, v in (c.mods or {}).items())
+            expr, exp = "(excluded_obs %s [%s])" % (C.coq_text(c.src), files), "EXCLUDED"
+            if not prop.model_available:
+                exp = None
         recs.append({"case": c, "impl": r, "oracle": why, "expected": exp, "mismatch": False, "model": None})
         if exp is not None:
-            items.append((prop.model_expr(c), exp))
+            items.append((expr or prop.model_expr(c), exp))
             idx.append(i)
     vm = 0.0
     if items:
@@ -159,8 +167,19 @@ def run_check(prop, tier, seed, replay=None):
         if not ok2:
             broken.append("proof obligation fails: " + first_coq_error(out2))
         else:
-            discharged, problems, assumptions_seen = C.audit(prop.id, prop.theorems, prop.allowed_axioms)
+            discharged, problems, assumptions_seen = C.audit(prop.id, prop.theorems, prop.allowed_axioms, getattr(prop, 'audit_modules', None))
             broken += problems
+
+    chk = None
+    if tier == "thorough" and not broken and not replay:
+        chk = C.coqchk(prop.id)
+        if not chk.get("ok"):
+            broken.append("coqchk rejected the compiled development: %s" % chk)
+        else:
+            bad_ax = [a for a in chk["axioms"] if a != "<none>" and
+                      not any(x in a for x in ("PrimFloat", "PrimInt63", "Uint63", "FloatAxioms", "Floats."))]
+            if bad_ax:
+                broken.append("coqchk lists unexpected axioms: %s" % bad_ax[:5])
 
     # 4. implementation
     C.build_harness()
@@ -230,13 +249,26 @@ def run_check(prop, tier, seed, replay=None):
         if k is not None:
             nontriv.add(k)
     samples = [prop.sample(r["case"], r["impl"]) for r in recs[:2] + recs[len(recs) // 2:len(recs) // 2 + 2]]
+    # the axioms actually reported by Print Assumptions on this run, named in the trusted base
+    used = {}
+    for th, axs in (assumptions_seen or {}).items():
+        for a in axs:
+            if not C.PRIMITIVE_OK.match(a):
+                used.setdefault(a, []).append(th)
+    tb = list(prop.trusted_base)
+    if used:
+        tb.append("Coq standard-library axioms used (Print Assumptions, this run): " +
+                  "; ".join("%s by %s" % (a, ", ".join(sorted(ths))) for a, ths in sorted(used.items())) +
+                  " — Floats.FloatAxioms states that the kernel's primitive floats behave as SpecFloat's binary64")
+    else:
+        tb.append("axioms (Print Assumptions, this run): none beyond the kernel primitives PrimFloat.* / PrimInt63.* (primitive types and operations, not propositions)")
     cov = {
         "obligations": len(prop.theorems),
         "discharged": len(discharged),
         "checker_cmd": "coq_makefile -f _CoqProject -o Makefile && make %s (full .vo build, coqc 8.16.1) ; "
                        "coqc work/%s/Audit_%s.v (Print Assumptions of every property theorem)" % (
                            " ".join(prop.prop_targets), prop.id, prop.id),
-        "trusted_base": prop.trusted_base,
+        "trusted_base": tb,
         "theorems": prop.theorems,
         "theorem_assumptions": assumptions_seen,
         "broken_obligations": broken,
@@ -252,10 +284,11 @@ def run_check(prop, tier, seed, replay=None):
         "distribution": getattr(prop, "distribution", {}),
         "translator_notes": notes[:20],
         "coq_vm_seconds": round(vm, 1),
+        "coqchk": chk,
         "exhaustive": False,
     }
     cov.update(getattr(prop, "extra_coverage", {}))
-    C.write_evidence(prop.id, tier, seed, cov, prop.trusted_base, time.time() - t0, violations)
+    C.write_evidence(prop.id, tier, seed, cov, tb, time.time() - t0, violations)
     C.log("%s %s: %d cases, %d violations, %.1fs" % (prop.id, tier, len(recs), violations, time.time() - t0))
     return 1 if violations else 0
 
